@@ -4,6 +4,8 @@ import DadiVerif.Lemmas.DemesAugment
 import DadiVerif.Lemmas.DemesWiring
 import DadiVerif.Lemmas.DemesUnits
 import DadiVerif.Generated.Admix
+import DadiVerif.Generated.DemesProg
+import DadiVerif.Lemmas.DemesProgWiring
 /-!
 # C16 — demes graphs vs native dadi models: units, wiring, order, export
 
@@ -839,6 +841,69 @@ theorem C16_import_search (migs : List GMig) (hasym : ∀ m ∈ migs, m.sym = no
 example : migRate exGraph.migs ⟨1, []⟩ ⟨2, []⟩ (some 20) (some 0) = 1/100 ∧ migRate exGraph.migs ⟨2, []⟩ ⟨1, []⟩ (some 20) (some 0) = 0
     ∧ (epochSearch (epochsOf (some 20) [{ fn := SizeFn.constant, ss := 5, es := 5, et := 10 }, { fn := SizeFn.linear, ss := 5, es := 9, et := 0 }]) (some 10) (some 4)).map (·.fn)
         = some SizeFn.linear := by
+  decide +kernel
+
+/-! ## round 5: the import loop translated statement by statement (`Generated/DemesProg.lean`)
+
+`tools/gen_DemesProg.py` translates `_sizes_at_time`, `_migration_rate_in_interval`, `_make_nu_func`, `_get_integration_parameters`,
+`_get_demographic_events`, `_integrate_phi`, `_apply_event`, `_compute_sfs` and the tail of `SFS` statement by statement (`phi` = the history of
+the numerical calls, exceptions = `none`).  The driver executes these generated programs (ops `c16g gevents | gparams | gimport | gapply |
+gintegrate`).  The theorems `C16_source_*` identify each of them (by `rfl`) with the reference program of `Model/DemesProg.lean`, about which the
+lemma files prove the closed forms and invariances: a change of the source breaks the `rfl` of the function it touches. -/
+
+theorem C16_source_sizes_at_time : @Gen.DemesProg.sizesAtTime = @sizesAtTimeRef := rfl
+theorem C16_source_migration_rate : @Gen.DemesProg.migrationRateInInterval = @migrationRateInIntervalRef := rfl
+theorem C16_source_make_nu_func : @Gen.DemesProg.makeNuFunc = @makeNuFuncRef := rfl
+theorem C16_source_integration_parameters : @Gen.DemesProg.getIntegrationParameters = @getIntegrationParametersRef := rfl
+theorem C16_source_demographic_events : @Gen.DemesProg.getDemographicEvents = @getDemographicEventsRef := rfl
+theorem C16_source_integrate_phi : @Gen.DemesProg.integratePhi = @integratePhiRef := rfl
+theorem C16_source_apply_event : @Gen.DemesProg.applyEvent = @applyEventRef := rfl
+theorem C16_source_compute_sfs : @Gen.DemesProg.computeSfs = @computeSfsRef := rfl
+theorem C16_source_sfs : @Gen.DemesProg.sfsImport = @sfsImportRef := rfl
+
+/-- **`_integrate_phi`, every keyword receives the entry of its own index.**  For d = 1 … 5 populations (and `integration_params` of that
+    size, the gamma / h lists filled with one scalar as `_compute_sfs` builds them) the generated dispatch + Python's binding of the call
+    hands `dadi.Integration.<d>_pops` exactly: `nu<k>` = `nu[k-1]`, `frozen<k>` = `frozen[k-1]`, `m<i><j>` = `M[i-1, j-1]`, `T`, `theta0`,
+    `deme_ids` — one call, appended to the history.  For any other number of populations no branch applies and `phi` is returned as it is.
+    (seeded/C16-8, `frozen5=frozen[3]`, breaks this theorem.) -/
+theorem C16_integrate_wiring {ν : Type} (d : ℕ) (phi : Trace ν) (p : IntegParams ν) (ids : List DName) (γ η : ℚ)
+    (hids : ids.length = d) (hnu : p.nu.length = d) (hfr : p.frozen.length = d) (hg : p.gamma = List.replicate d γ)
+    (hh : p.h = List.replicate d η) (hM : p.M.length = d) (hrow : ∀ r ∈ p.M, r.length = d) :
+    (1 ≤ d ∧ d ≤ 5 → Gen.DemesProg.integratePhi phi p ids = some (phi ++ [PCall.integrate { fn := integName d, T := p.T, nu := p.nu, m := offDiag d p.M, gamma := List.replicate d γ, h := List.replicate d η, theta := p.theta, frozen := p.frozen, ids := ids }]))
+    ∧ (d = 0 ∨ 5 < d → Gen.DemesProg.integratePhi phi p ids = some phi) := by
+  have key : ∀ k ∈ [1, 2, 3, 4, 5], (match integCalls.find? (fun c => c.npop == k) with
+      | some c => c.npop == k && wiringOk c
+      | none => false) = true := by decide
+  have rng : ∀ c ∈ integCalls, 1 ≤ c.npop ∧ c.npop ≤ 5 := by decide
+  constructor
+  · rintro ⟨h1, h5⟩
+    have hk : d ∈ [1, 2, 3, 4, 5] := by
+      simp only [List.mem_cons, List.not_mem_nil, or_false]; omega
+    have := key d hk
+    unfold Gen.DemesProg.integratePhi
+    rw [hids]
+    cases hf : integCalls.find? (fun c => c.npop == d) with
+    | none => rw [hf] at this; simp at this
+    | some c =>
+      rw [hf] at this
+      simp only [Bool.and_eq_true, beq_iff_eq] at this
+      obtain ⟨hn, hw⟩ := this
+      subst hn
+      simp only [bindIntegrate_spec c hw p ids γ η hnu hfr hg hh hM hrow, Option.map_some]
+  · intro h
+    unfold Gen.DemesProg.integratePhi
+    rw [hids]
+    have : integCalls.find? (fun c => c.npop == d) = none := by
+      rw [List.find?_eq_none]
+      intro c hc
+      have := rng c hc
+      simp only [beq_iff_eq]
+      omega
+    rw [this]
+
+/-- non-vacuity: three populations, the third frozen, an asymmetric matrix -/
+example : Gen.DemesProg.integratePhi ([] : Trace ℕ) { nu := [7, 8, 9], T := 1/4, M := [[0, 12, 13], [21, 0, 23], [31, 32, 0]], gamma := [0, 0, 0], h := [1/2, 1/2, 1/2], theta := 1, frozen := [false, false, true] } [⟨0, []⟩, ⟨1, []⟩, ⟨2, []⟩]
+    = some [PCall.integrate { fn := "three_pops", T := 1/4, nu := [7, 8, 9], m := [[0, 12, 13], [21, 0, 23], [31, 32, 0]], gamma := [0, 0, 0], h := [1/2, 1/2, 1/2], theta := 1, frozen := [false, false, true], ids := [⟨0, []⟩, ⟨1, []⟩, ⟨2, []⟩] }] := by
   decide +kernel
 
 end DadiVerif
